@@ -9,7 +9,7 @@ use std::f64::consts::PI;
 
 pub fn monitor() -> Monitor {
   Monitor { id: "C16",
-    rule: "(a) every cell of depths <= 7 (quick) / <= 9 (thorough) + class-sampled cells of every deeper depth: true largest centre-to-vertex distance (reference geometry) vs largest_center_to_vertex_distance at the centre and at 2 random interior positions of the cell; (b) cones (centre from the sphere/pole/seam/transition generators, radius 0.02..40 cell sizes capped at pi/2, and one cone in six with a radius in (0.3, pi] at depths 1..5, longitude outside [0,2pi) one time in eight): the *_with_radius bound (single and multi-depth forms) vs the true value of every cell whose centre is within the radius — cells found by hashing sample points of the cone (brute force over all cells for depth <= 5); (c) best_starting_depth: monotone, equal to a linear scan of the thresholds located by bisection, refusal of radii >= the depth-0 limit consistent with has_best_starting_depth, and containment of 96 boundary points of the cone in the centre cell + neighbours for radii at (1-{1e-12..0.3}) x threshold with centres aimed at seams, poles, transition latitude; plus, per depth, 6 witness cones built on the thinnest cell of the depth found by the reference geometry (width W): centre just outside one edge, radius W(1 +- {3e-4,3e-3,3e-2}) and the largest radius still answered with that depth (centre 1e-6 W outside), probe through the nearest point of the opposite edge. Non-trivial = cell on a base-cell border/corner, cone containing a pole or straddling the transition latitude / LAT_OF_SQUARE_CELL, radius within 5% of a threshold.",
+    rule: "(a) every cell of depths <= 7 (quick) / <= 9 (thorough) + class-sampled cells of every deeper depth: true largest centre-to-vertex distance (reference geometry) vs largest_center_to_vertex_distance at the centre and at 2 random interior positions of the cell; (b) cones (centre from the sphere/pole/seam/transition generators, radius 0.02..40 cell sizes capped at pi/2, and one cone in six with a radius in (0.3, pi] at depths 1..5, longitude outside [0,2pi) one time in eight): the *_with_radius bound (single and multi-depth forms) vs the true value of every cell whose centre is within the radius — cells found by hashing sample points of the cone (brute force over all cells for depth <= 5); (c) best_starting_depth: monotone, equal to a linear scan of the thresholds located by bisection, exact at the tabulated limits (read through the verification hook: r = limit -> shallower depth, one ulp below -> that depth, bisected threshold == limit), refusal of radii >= the depth-0 limit consistent with has_best_starting_depth, and containment of 96 boundary points of the cone in the centre cell + neighbours for radii at (1-{1e-12..0.3}) x threshold with centres aimed at seams, poles, transition latitude; plus, per depth, 6 witness cones built on the thinnest cell of the depth found by the reference geometry (width W): centre just outside one edge, radius W(1 +- {3e-4,3e-3,3e-2}) and the largest radius still answered with that depth (centre 1e-6 W outside), probe through the nearest point of the opposite edge. Non-trivial = cell on a base-cell border/corner, cone containing a pole or straddling the transition latitude / LAT_OF_SQUARE_CELL, radius within 5% of a threshold.",
     assumptions: &["reference cell geometry; Layer::hash (C01) and Layer::neighbours (C04) for the containment claim", "distances carry an absolute slack of 1e-15 rad and a relative one of 1e-12"],
     run, replay }
 }
@@ -40,7 +40,7 @@ fn run(ctx: &mut Ctx, extra: &mut BTreeMap<String, String>) {
     }
     for _ in 0..n_cones / shards { let (case, _) = gen_cone(&mut rng); judge_cone(c, &case); }
     for _ in 0..n_bsd / shards { let case = gen_bsd(&mut rng, thr_ref); judge_bsd(c, &case, thr_ref); }
-    if k == 0 { bsd_table(c, thr_ref); for case in witness_cases(thr_ref) { judge_bsd(c, &case, thr_ref); } }
+    if k == 0 { bsd_table(c, thr_ref); bsd_exact(c, thr_ref); for case in witness_cases(thr_ref) { judge_bsd(c, &case, thr_ref); } }
   });
 }
 
@@ -206,6 +206,23 @@ pub fn judge_bsd(ctx: &mut Ctx, c: &Case, thr: &[f64]) {
   let cc = c.clone().u("start_depth", d as u64).f("ratio", ratio).f("dlon_seam", dl);
   if let Some((p, h)) = bad { ctx.violation("cone-of-radius-r-leaves-the-centre-cell-and-its-neighbours-at-best_starting_depth", cc, format!("depth {} r/threshold={:.6} boundary point {:?} in cell {} not in N({})", d, ratio, p, h, hc)); }
   if ratio > 0.95 { ctx.hard("bsd:radius-within-5%-of-threshold", &[r.to_bits(), lon.to_bits(), lat.to_bits()]); if lat.abs() > tl && dl < 0.15 { ctx.hard("bsd:...and-polar-cap-seam", &[r.to_bits(), lon.to_bits(), lat.to_bits()]); } } else { ctx.bump("plain-bsd-cases"); }
+}
+
+/// exactness at the tabulated limits themselves (table read through the cfg(cdshealpix_verif) hook): "the deepest depth whose tabulated
+/// limit still EXCEEDS r": at r == T[d] the answer is d - 1, one ulp below it is d; the thresholds located by bisection are the entries
+fn bsd_exact(ctx: &mut Ctx, thr: &[f64]) {
+  let t = cdshealpix::verif::best_starting_depth_table();
+  for d in 0..30usize {
+    ctx.evals_n(3);
+    let c = Case::new("bsd-table").u("d", d as u64).f("r", t[d]);
+    if d > 0 {
+      match catch(|| cdshealpix::best_starting_depth(t[d])) { Ok(g) => if g as usize != d - 1 { ctx.violation("best_starting_depth-not-the-deepest-depth-whose-limit-exceeds-r", c.clone(), format!("r equal to the limit of depth {}: got {} want {}", d, g, d - 1)); }, Err(e) => ctx.violation("best_starting_depth-panics-below-the-depth0-limit", c.clone(), e) }
+    } else if cdshealpix::has_best_starting_depth(t[0]) || catch(|| cdshealpix::best_starting_depth(t[0])).is_ok() { ctx.violation("radius>=depth0-limit-not-refused", c.clone(), "r equal to the depth-0 limit".into()); }
+    let below = nudge(t[d], -1);
+    match catch(|| cdshealpix::best_starting_depth(below)) { Ok(g) => if g as usize != d { ctx.violation("best_starting_depth-not-the-deepest-depth-whose-limit-exceeds-r", c.clone().f("r", below), format!("r one ulp below the limit of depth {}: got {} want {}", d, g, d)); }, Err(e) => ctx.violation("best_starting_depth-panics-below-the-depth0-limit", c.clone().f("r", below), e) }
+    if thr[d] != t[d] { ctx.violation("best_starting_depth-not-the-deepest-depth-whose-limit-exceeds-r", c.clone(), format!("threshold located by bisection {:e} differs from the tabulated limit {:e} of depth {}", thr[d], t[d], d)); }
+    ctx.hard("bsd:radius-equal-to-a-tabulated-limit", &[d as u64]);
+  }
 }
 
 fn bsd_table(ctx: &mut Ctx, thr: &[f64]) {
